@@ -76,7 +76,7 @@ CLAIMED = {
              'exactly the text; 16-bit references for split_sms_udh; generic loop lemmas (lossless, sized) for any limit. Tied to the code by '
              'differential runs of the split functions and by running the real ESME sender (fake transport) and parsing the written PDUs with an '
              'independent SMPP reference parser; two thirds of the sender-path variants set every option of the message away from its default (TON/NPI, protocol_id, '
-             'priority, both time fields, replace_if_present, sm_default_msg_id) and each PDU of the message must carry all of them (oracle; the clone() of a segment is not in the model).',
+             'priority, both time fields, replace_if_present, sm_default_msg_id) and each PDU of the message must carry all of them (oracle), and the translator reads off the code that every segment is smpp_message.clone() and that clone() passes every constructor field of the dataclass (C08_segments_are_full_copies).',
         note='Trusted: Coq kernel, translator (tables, size constants), harness + smppref.py. Domain: default alphabet gsm0338, automatic encoding, '
              'strict error handling. Proved for the code after fix 164ba1d (the pinned code cut GSM texts on characters). No axioms.',
         technique='Coq proof: generic chunking invariants by induction on fuel, byte/unit commutation for UTF-16, decoder-state lemmas; differential + wire-level correspondence',
